@@ -50,6 +50,39 @@ class Ctx:
     return f'{f.module.relpath}:{getattr(node, "lineno", 0)}'
 
   # ------------------------------------------------------------- queries
+  def lifted_helpers(self, f: FuncInfo) -> Dict[str, FuncInfo]:
+    """Module-level functions that `f` calls with some of its own locals in
+    the same argument position at every call site - closures written with
+    their free variables as parameters.  Each is returned as the closure it
+    stands for (model.CallbackView): the bound parameters read as f's locals.
+    """
+    from fdlstatic.model import CallbackView
+    sites: Dict[str, List[ast.Call]] = {}
+    for c in self.calls(f):
+      q = self.p.resolve(c.func, f)
+      h = self.p.funcs.get(q) if q else None
+      if h is None or h.is_lambda or h.cls is not None or (
+          h.parent is not h.module) or h.module is not f.module or h is f:
+        continue
+      sites.setdefault(q, []).append(c)
+    out = {}
+    own = f.local_names()
+    for q, calls in sites.items():
+      h = self.p.funcs[q]
+      bounds = [self.bound_args(c, f) for c in calls]
+      if any(b is None for b in bounds):
+        continue
+      bound = {}
+      for prm in h.params:
+        vals = {unparse(b[prm]) for b in bounds if prm in b}
+        first = bounds[0].get(prm)
+        if len(vals) == 1 and isinstance(first, ast.Name) and (
+            first.id in own) and all(prm in b for b in bounds):
+          bound[prm] = first
+      if bound:
+        out[h.name] = CallbackView(h, 0, f, bound)
+    return out
+
   def const(self, expr, scope: Scope, depth: int = 2):
     """`expr`, or the module-level constant it names (NAME = <tuple / set /
     frozenset(...)> at module level, never rebound in a function)."""
